@@ -3453,6 +3453,10 @@ func main() {
 					code = 2
 					return
 				}
+				if _, isExit := r.(exitNow); isExit {
+					code = 1
+					return
+				}
 				panic(r)
 			}
 		}()
@@ -3460,7 +3464,13 @@ func main() {
 		curArea = a
 		var done []string
 		files := map[string]*ast.File{}
+		started, finished := map[string]bool{}, map[string]bool{}
 		for _, fs := range a.funcs {
+			started[fs.name] = true // a root is never translated as somebody's helper
+		}
+		var process func(fs fnSpec)
+		process = func(fs fnSpec) {
+			started[fs.name] = true
 			f, seen := files[fs.file]
 			if !seen {
 				var err error
@@ -3471,8 +3481,7 @@ func main() {
 				f, err = parser.ParseFile(fset, filepath.Join(*repo, fs.file), nil, mode)
 				if err != nil {
 					fmt.Fprintf(os.Stderr, "go2gallina: %v\n", err)
-					code = 1
-					return
+					panic(exitNow{})
 				}
 				files[fs.file] = f
 			}
@@ -3529,9 +3538,27 @@ func main() {
 			if a.shadow {
 				renameShadows(fd)
 			}
+			saveConsts, saveStr, saveDir := t.consts, t.strConsts, t.dir
+			// stage 8: unexported helpers of the same package that the function calls are translated first
+			// (the call graph is followed from the area's roots; a recursive helper is outside the subset)
+			for _, h := range t.helperCallees(fd, fs) {
+				if started[h.name] {
+					if !finished[h.name] {
+						unsup(fd, "recursive helper %s", h.name)
+					}
+					continue
+				}
+				process(h)
+			}
+			// the callee's translation has reset the per-file state
+			t.consts, t.strConsts, t.dir = saveConsts, saveStr, saveDir
 			t.function(fd, fs)
 			t.auditFresh(fd.Name.Name)
 			done = append(done, fs.name)
+			finished[fs.name] = true
+		}
+		for _, fs := range a.funcs {
+			process(fs)
 		}
 		var b strings.Builder
 		var srcs []string
@@ -3564,6 +3591,8 @@ func main() {
 	}()
 	os.Exit(code)
 }
+
+type exitNow struct{}
 
 func funcName(fd *ast.FuncDecl) string {
 	if fd.Recv != nil && len(fd.Recv.List) == 1 {
